@@ -62,7 +62,7 @@ func startServer(c *Ctx, binEnv string, extraEnv ...string) (*server, error) {
 		}
 		lf.Close()
 		go func() { s.cmd.Wait(); close(s.done) }()
-		s.client = &http.Client{Timeout: 60 * time.Second, Transport: &http.Transport{MaxConnsPerHost: 32, MaxIdleConnsPerHost: 32, IdleConnTimeout: 20 * time.Second}}
+		s.client = &http.Client{Timeout: 60 * time.Second, Transport: &http.Transport{MaxConnsPerHost: 24, MaxIdleConnsPerHost: 24, IdleConnTimeout: 20 * time.Second}}
 		ok := false
 		for i := 0; i < 100; i++ {
 			select {
@@ -144,6 +144,7 @@ type httpResult struct {
 // after 100 requests) the request is retried once on a fresh connection.
 func (s *server) do(method, path string, body []byte, fresh bool, timeout time.Duration) httpResult {
 	var last httpResult
+	busy := 0
 	for attempt := 0; attempt < 2; attempt++ {
 		ctx, cancel := context.WithTimeout(context.Background(), timeout)
 		req, err := http.NewRequestWithContext(ctx, method, "http://"+s.addr+path, bytes.NewReader(body))
@@ -170,6 +171,14 @@ func (s *server) do(method, path string, body []byte, fresh bool, timeout time.D
 		resp.Body.Close()
 		cancel()
 		last = httpResult{Status: resp.StatusCode, Header: resp.Header, Body: b, Err: rerr}
+		if rerr == nil && resp.StatusCode == 429 && bytes.Contains(b, []byte("MaxConnsPerIP")) && busy < 100 {
+			// the server's per-IP connection limit (50): connections this client has just closed may still be counted.
+			// Not a verdict on the request: back off and re-issue it.
+			busy++
+			attempt--
+			time.Sleep(30 * time.Millisecond)
+			continue
+		}
 		if rerr == nil {
 			return last
 		}
